@@ -37,7 +37,9 @@ MSGS = ["boom", "", "two\nlines", "naïve é λ ✓", "<error>open", "close</err
         "trailing backslash \\", "back\\<slash", "<fg=red>x</>", "\\", "tab\there", "  padded  ", "<", "ends with <", "</>", "100% {braces}",
         "\x1b[31mred\x1b[0m", "three\n\n  lines\\\nlast", "<fg=nope>y", "\\<b>", "x" * 300,
         # characters str.splitlines() takes for line ends although "\n" is the only one the report knows, and a final line break
-        "a\rb", "a\x0cb", "a\u2028b", "ends\n", "a\x85b", "v\x0bt and fs\x1cgs\x1drs\x1e.", "x\r\ny", "\n"]
+        "a\rb", "a\x0cb", "a\u2028b", "ends\n", "a\x85b", "v\x0bt and fs\x1cgs\x1drs\x1e.", "x\r\ny", "\n",
+        # the same escape more than once in one text; several backslashes before a '<'; '<' and a backslash at the very end
+        "a\\<b\\<c \\<d>", "two \\\\<b> three \\\\\\<", "<<>> \\<\\< <\\", "x<\\\ny\\<\nz\\"]
 EXCS = ["RuntimeError", "ValueError", "KeyError", "Custom", "MarkupName", "ClosingName", "OSError", "SyntaxError", "Lib",
         "Sol0", "Sol1", "Sol2", "Sol3", "SolSelf", "StrRaises", "StrNone"]
 N_PLAIN_EXCS = 9        # EXCS[9:14] offer solutions, EXCS[14:] have a broken __str__
@@ -86,6 +88,7 @@ POOL = [
     ['FF = """a', "b\x0cc \x0b d", 'e"""  # form feed and vertical tab inside a multi-line string'],
     ['MF = f"""x', "y", '{1}z"""  # a multi-line f-string whose literal part ends with a line break'],
     ['US = """a\u2028b\x85c', 'd"""'],
+    ["RX = r'\\<a\\<b>' + r'\\\\<'  # \\< twice \\<, then \\\\<"],
 ]
 BODY = [
     ["x = 1"],
@@ -222,6 +225,11 @@ def gen(rng, tier, info):
                    ind=("\t" if k % 2 == 0 else "  "), rec=rng.choice(["none", "mutual"]), pad=(1200 if k % 6 == 5 else 0))
         text, site_line = build_source(cc)
         n = len(text.split("\n"))
+        # a text read without newline translation: Windows line ends (every fourth text), a lone CR (every fourth)
+        if k % 4 == 1:
+            text = text.replace("\n", "\r\n")
+        elif k % 4 == 3:
+            text = text.replace("\n", "\r")
         for line in sorted(set([1, 3, site_line, n - 1] + ([999, 1000, 1001] if cc["pad"] else []))):
             cases.append({"kind": 1, "file": "generated-%d" % k, "text": text, "line": line, "before": rng.choice([2, 4]), "after": rng.choice([2, 4]),
                           "utf8": rng.randrange(2)})
